@@ -38,7 +38,7 @@ ASSUMPTIONS = ['no .xls writer is available offline: the xlrd code path is exerc
 REQUIRED_COUNTERS = {'workbooks_converted': 30, 'fibre_checks': 200, 'amplifier_placement_checks': 60,
                      'invalid_workbooks': 15, 'service_rows_checked': 40, 'designs_of_converted_topologies': 30,
                      'xls_xlsx_differentials': 2, 'line_routes_checked': 5, 'ila_route_entries': 5,
-                     'routes_with_unknown_loose_names': 5}
+                     'routes_with_unknown_loose_names': 5, 'routes_naming_an_ila_before_an_unnamed_fused_site': 2}
 CASE_TIMEOUT = {'quick': 300, 'thorough': 600}
 ARROW = '→'
 
@@ -51,18 +51,32 @@ def plan(tier, seed):
 
 # ------------------------------------------------------------------------------------------------ description
 
-def gen_description(rng):
-    n = rng.randint(3, 9)
+def gen_description(rng, chain=False):
+    n = rng.randint(4 if chain else 3, 9)
     cities = [f'S{i}' for i in range(n)]
     # connected graph where several sites have degree 2 (candidates for ILA / FUSED)
     links = set()
     order = cities[:]
     rng.shuffle(order)
-    for i in range(1, n):
-        links.add(tuple(sorted((order[i], order[rng.randrange(max(0, i - 2), i)]))))
-    for _ in range(rng.randint(0, 2)):
-        a, b = rng.sample(cities, 2)
-        links.add(tuple(sorted((a, b))))
+    forced = {}
+    if chain:
+        # a line ROADM - x - y - ROADM whose two inner sites have degree 2 and are an ILA next to a FUSED site (or two ILAs)
+        for i in range(1, 4):
+            links.add(tuple(sorted((order[i], order[i - 1]))))
+        for i in range(4, n):
+            links.add(tuple(sorted((order[i], order[rng.choice([0] + list(range(3, i)))]))))
+        for _ in range(rng.randint(0, 2)):
+            a, b = rng.sample([order[0]] + order[3:], 2) if n > 4 else (order[0], order[3])
+            if a != b:
+                links.add(tuple(sorted((a, b))))
+        inner = rng.choice([('ILA', 'FUSED'), ('FUSED', 'ILA'), ('ILA', 'ILA'), ('ILA', 'FUSED')])
+        forced = {order[0]: 'ROADM', order[1]: inner[0], order[2]: inner[1], order[3]: 'ROADM'}
+    else:
+        for i in range(1, n):
+            links.add(tuple(sorted((order[i], order[rng.randrange(max(0, i - 2), i)]))))
+        for _ in range(rng.randint(0, 2)):
+            a, b = rng.sample(cities, 2)
+            links.add(tuple(sorted((a, b))))
     links = sorted(links)
     deg = {c: sum(1 for l in links if c in l) for c in cities}
     nodes = {}
@@ -71,6 +85,7 @@ def gen_description(rng):
             t = rng.choice(['ILA', 'ILA', 'ROADM', 'FUSED', ''])
         else:
             t = rng.choice(['ROADM', 'ROADM', 'ILA', ''])        # ILA on degree != 2 must be corrected to ROADM
+        t = forced.get(c, t)
         nodes[c] = {'city': c, 'state': 'st', 'country': 'co', 'region': rng.choice(['R1', 'R2']),
                     'latitude': round(rng.uniform(40, 50), 3), 'longitude': round(rng.uniform(-5, 8), 3), 'type': t,
                     'booster': rng.choice(['', '', 'std_medium_gain | std_low_gain']),
@@ -531,6 +546,15 @@ def gen_services(rng, desc, types):
     for row in rows:
         if candidates and rng.random() < 0.5:
             a, z, mids, line = rng.choice(candidates)
+            if rng.random() < 0.5 and any(types[c] == 'FUSED' for c in mids) and any(types[c] != 'FUSED' for c in mids):
+                # the fused sites of the line are not named: the ILA before one still faces it
+                mids = [c for c in mids if types[c] != 'FUSED']
+                while mids and types[mids[-1]] != 'ROADM':
+                    mids.pop()
+                if not mids:
+                    continue
+                row['_unnamed_fused'] = any(types[x] == 'ILA' and types[y] == 'FUSED' and x in mids
+                                            for x, y in zip(line[:-1], line[1:]))
             row.update(src=a, dst=z, path=' | '.join(mids), line=line)
     # loose routes may name sites that do not exist: the documented behaviour is to skip them (a strict one is refused);
     # the names that follow must come out exactly as if the unknown one had not been written
@@ -556,7 +580,7 @@ def gen_services(rng, desc, types):
 
 def run_service(case, ctx, tmp):
     rng = ctx.rng
-    desc = gen_description(rng)
+    desc = gen_description(rng, chain=rng.random() < 0.4)
     m = expected_model(desc)
     rows = gen_services(rng, desc, m['types'])
     path = Path(tmp) / 'net.xlsx'
@@ -594,6 +618,8 @@ def run_service(case, ctx, tmp):
         exp_hop = 'LOOSE' if row['loose'] in (None, 'yes', 'Yes') else 'STRICT'
         if row.get('path_cell'):
             ctx.count('routes_with_unknown_loose_names')
+        if row.get('_unnamed_fused'):
+            ctx.count('routes_naming_an_ila_before_an_unnamed_fused_site')
         if row.get('line'):
             # structural oracle for routes naming ILA / FUSED sites: nothing dropped, ROADM entries by name, every
             # other entry an element of the network whose next fibre leaves that site towards the next site of the line
